@@ -82,3 +82,55 @@ Fixpoint reader_run (calls : list rcall) (st : rstate) : rstate * str * list Z :
       let '(st2, t2, b2) := reader_run rest st1 in
       (st2, t1 ++ t2, b1 ++ b2)
   end.
+
+(* ---------------------------------------------------------------------- *)
+(* Harness entry points (in addition to those of run_C03_all):
+   (10 (call ...))  call = (sel rd), sel = 0 ready | 1 not ready | 2 OSError,
+                    rd = (0 bytes) data (empty = end of file) | (1) OSError
+        -> per call (text closed undecoded_bytes bytes_taken)
+   (11 (p ...))     queries to a fresh memo table
+        -> ((answer ...) ((p answer) ...))   table in insertion order *)
+
+Definition dec_call (s : sx) : option rcall :=
+  match s with
+  | L [A se; rd] =>
+      let sel := if se =? 0 then Some SelReady else if se =? 1 then Some SelNotReady
+                 else if se =? 2 then Some SelError else None in
+      let r := match rd with
+               | L [A 0; d] => match as_str d with Some b => Some (RdData b) | None => None end
+               | L [A 1] => Some RdError
+               | _ => None
+               end in
+      match sel, r with Some a, Some b => Some (a, b) | _, _ => None end
+  | _ => None
+  end.
+
+Fixpoint run_rsteps (calls : list rcall) (st : rstate) : list sx :=
+  match calls with
+  | [] => []
+  | (s, r) :: rest =>
+      let '(st1, t1, b1) := reader_read s r st in
+      L [sx_str t1; sx_bool (rclosed st1); sx_str (rpend st1); sx_str b1] :: run_rsteps rest st1
+  end.
+
+Fixpoint run_queries (ps : list str) (c : cache) : list bool * cache :=
+  match ps with
+  | [] => ([], c)
+  | p :: r => let q := cache_query p c in
+              let rest := run_queries r (snd q) in (fst q :: fst rest, snd rest)
+  end.
+
+Definition run_C03_all2 (c : sx) : sx :=
+  match c with
+  | L [A 10; L l] => match map_opt dec_call l with
+                     | Some calls => L (run_rsteps calls rinit)
+                     | None => bad_case
+                     end
+  | L [A 11; L l] => match map_opt as_str l with
+                     | Some ps => let r := run_queries ps [] in
+                                  L [sx_list sx_bool (fst r);
+                                     sx_list (fun kv => L [sx_str (fst kv); sx_bool (snd kv)]) (rev (snd r))]
+                     | None => bad_case
+                     end
+  | _ => run_C03_all c
+  end.
